@@ -233,6 +233,10 @@ func runC13(tier string, seed uint64) {
 					s.wireNullMarker = rng.Bool()
 				}
 				s.ListVersions(b, "", "", e.Key, vm, 1+rng.Intn(3))
+				// the same pair under a prefix / delimiter: the marker says where the listing resumes, whether
+				// or not its own key lies under the prefix (or inside a common prefix)
+				pd := [][2]string{{"p", ""}, {"", "/"}, {"p/", "/"}, {"k", ""}, {"zz", ""}}[rng.Intn(5)]
+				s.ListVersions(b, pd[0], pd[1], e.Key, vm, 1+rng.Intn(3))
 				s.wireNullMarker = false
 			}
 		}
